@@ -384,8 +384,13 @@ class Uri(six.text_type):
 
     def __eq__(self, other):
         if not isinstance(other, Uri):
-            return NotImplemented
+            # Not NotImplemented: that would fall back to str.__eq__ and
+            # make a Uri equal to a plain string with the same text.
+            return False
         return super(Uri, self).__eq__(other)
+
+    def __ne__(self, other):
+        return not (self == other)
 
 
 class Bin(six.text_type):
@@ -401,8 +406,13 @@ class Bin(six.text_type):
 
     def __eq__(self, other):
         if not isinstance(other, Bin):
-            return NotImplemented
+            # Not NotImplemented: that would fall back to str.__eq__ and
+            # make a Bin equal to a plain string with the same text.
+            return False
         return super(Bin, self).__eq__(other)
+
+    def __ne__(self, other):
+        return not (self == other)
 
 
 class XStr(object):
